@@ -29,6 +29,7 @@ Apply(o, t) ==
     [] t.ev = "InRet"     -> OInRet(o, t.id, t.ok)
     [] t.ev = "DoRet"     -> IF t.id \in Ev THEN ODo(o, t.id, t.res) ELSE o
     [] t.ev = "Propagate" -> OPropagate(o, t.id)
+    [] t.ev = "Attend"    -> IF t.got < t.want THEN [o EXCEPT !.viol = @ \cup {V("stream_unattended", 0, t.got, "proc", "")}] ELSE o
     [] t.ev = "Corrupt"   -> [o EXCEPT !.viol = @ \cup {V("payload_of_other_event", t.id, t.seen, t.b, "")}]
     [] t.ev = "Spawn"     -> OSpawn(o, t.id, t.kids)
     [] t.ev = "Out"       -> OAdd(o, t.b, t.id)
